@@ -4,7 +4,7 @@ use crate::fixtures::{FixtureDatabase, FixtureDefinition, FixtureScope};
 use crate::kx::{any, assume};
 use crate::spec;
 use crate::world::*;
-use std::collections::HashSet;
+use crate::coll::HashSet;
 use std::path::{Path, PathBuf};
 
 fn any_line() -> usize { let l: usize = any(); assume(l >= 4 && l < 1000); l }
